@@ -107,6 +107,35 @@ async fn http_token_probe(h: &mut Harness, which: u32) {
     use iggy::http::HttpTransport;
     let Ok(http) = iggy::http::client::HttpClient::create(std::sync::Arc::new(iggy::http::config::HttpClientConfig { api_url: "http://sim".into(), retries: 0 })) else { return };
     let (root_name, root_password) = h.model.users.get(&1).map(|u| (u.name.clone(), u.password.clone())).unwrap_or((crate::world::ROOT_USER.into(), crate::world::ROOT_PASSWORD.into()));
+    if which % 5 == 4 {
+        // a valid token is exchanged once: the exchange returns, the new token works, the old one does not
+        let Ok(identity) = http.login_user(&root_name, &root_password).await else { return };
+        let Some(old) = identity.access_token.map(|t| t.token) else { return };
+        h.stats.probe("http_valid_token_refresh_requested");
+        match http.refresh_access_token().await {
+            Ok(()) => {
+                if http.get_streams().await.is_err() {
+                    h.violate("C10", "valid_credentials_accepted", "http_refreshed_token_refused", "the token obtained from /users/refresh-token is refused");
+                    h.violate("C13", "exchange_equals_model", "http_refreshed_token_refused", "the token obtained from /users/refresh-token is refused");
+                }
+                http.set_access_token(Some(old.clone())).await;
+                if http.get_streams().await.is_ok() {
+                    h.violate("C10", "only_valid_credentials", "http_token_exchanged_by_refresh_accepted", "a token that was exchanged at /users/refresh-token is still served");
+                }
+                if h.revoked_http_tokens.len() < 16 {
+                    // exchanged tokens are revoked for good as well
+                    let _ = http_token_of(&http).await;
+                    h.revoked_http_tokens.push(old);
+                }
+            }
+            Err(e) => {
+                h.violate("C10", "valid_credentials_accepted", "http_refresh_refused", format!("refresh of a valid token failed: {e:?}"));
+                h.violate("C13", "exchange_equals_model", "http_refresh_refused", format!("refresh of a valid token failed: {e:?}"));
+            }
+        }
+        h.sim.settle().await;
+        return;
+    }
     let kind = which % 4;
     let (token, what): (String, &'static str) = match kind {
         0 => (format!("eyJhbGciOiJIUzI1NiJ9.{:x}.{:x}", which as u64 * 7919, which as u64 * 104729), "token_never_issued"),
@@ -141,6 +170,12 @@ async fn http_token_probe(h: &mut Harness, which: u32) {
     };
     http.set_access_token(Some(token)).await;
     h.stats.probe("http_request_with_invalid_token_sent");
+    // the refresh endpoint is public: a token that is not valid any more must not be exchangeable for a new one
+    if http.refresh_access_token().await.is_ok() {
+        h.violate("C09", "unauthenticated_refused", format!("http_refreshed:{what}"), format!("POST /users/refresh-token exchanged a {what} for a new token"));
+        h.violate("C10", "only_valid_credentials", format!("http_{what}_refreshed"), format!("POST /users/refresh-token exchanged a {what} for a new token"));
+        return;
+    }
     let read = http.get_streams().await;
     if read.is_ok() {
         h.violate("C09", "unauthenticated_refused", format!("http_served:get_streams:{what}"), format!("GET /streams with a {what} was served"));
@@ -268,4 +303,9 @@ pub async fn garbage(h: &mut Harness, seed: u64) {
         let _ = p;
         h.stats.probe("malformed_frame_panicked_its_handler");
     }
+}
+
+async fn http_token_of(_http: &iggy::http::client::HttpClient) -> Option<String> {
+    // the client's current token is private; the caller already holds the old one
+    None
 }
